@@ -40,6 +40,16 @@ Ltac hstep H :=
       let E := fresh "E" in destruct (Varint.pull_uint_var b) as [[? ?]|?] eqn:E; cbn [bind] in H; [apply pull_uint_var_len2 in E|discriminate]
   end.
 
+(* 0 <= Zlen r for every buffer remainder named in a length equation (no auto-generated names in the script) *)
+Ltac nonnegs :=
+  repeat match goal with
+  | H : Zlen ?r = _ |- _ =>
+      lazymatch goal with
+      | _ : 0 <= Zlen r |- _ => fail
+      | _ => pose proof (CodecProofs.Zlen_nonneg r)
+      end
+  end.
+
 Lemma finish_long_inv total version ptype dcid scid token tag rl r h rest :
   Header.finish_long total version ptype dcid scid token tag rl r = Ok (h, rest) ->
   rest = r /\ Header.h_type h = ptype.
@@ -63,7 +73,7 @@ Proof.
   destruct (_ =? 0).
   { destruct (Header.pull_versions _); cbn [bind] in H; [|discriminate]. injection H as <- <-.
     cbn [Header.h_type]. change (Header.PT_VERSION_NEGOTIATION =? Header.PT_RETRY) with false. cbv iota.
-    change (Zlen (@nil Z)) with 0. pose proof (CodecProofs.Zlen_nonneg l1). simpl in *. lia. }
+    change (Zlen (@nil Z)) with 0. nonnegs. simpl in *. lia. }
   destruct (negb (Header.has_fixed_bit _)); [discriminate|].
   match type of H with context [if ?p =? Header.PT_INITIAL then _ else _] => set (ptype := p) in * end.
   destruct (ptype =? Header.PT_INITIAL) eqn:EI.
